@@ -747,13 +747,48 @@ func inLoopFlagRule(r *Run, rule string) {
 		}
 		return cal == pm.blockParse.Obj || cal == pm.pratt.Obj || cal == pm.stmtParse.Obj
 	}
+	// named restore helpers: parser methods whose whole body is `<recv>.flag = <parameter>`
+	restoreHelper := map[*types.Func]int{}
 	for _, f := range pm.methods {
+		if len(f.Decl.Body.List) != 1 {
+			continue
+		}
+		as, ok := f.Decl.Body.List[0].(*ast.AssignStmt)
+		if !ok || len(as.Lhs) != 1 || len(as.Rhs) != 1 {
+			continue
+		}
+		if _, fld := fieldOf(info, as.Lhs[0]); fld != flag {
+			continue
+		}
+		sig := f.Obj.Type().(*types.Signature)
+		for i := 0; i < sig.Params().Len(); i++ {
+			if objOf(info, as.Rhs[0]) == sig.Params().At(i) {
+				restoreHelper[f.Obj] = i
+			}
+		}
+	}
+	for _, f := range pm.methods {
+		if _, isHelper := restoreHelper[f.Obj]; isHelper {
+			continue
+		}
 		type store struct {
 			as       *ast.AssignStmt
 			rhs      ast.Expr
 			deferred bool
 		}
 		var stores []store
+		// `defer helper(p.flag)` / `defer helper(saved)`: the argument is evaluated at the defer statement
+		var helperRestoreAt token.Pos
+		inspectBody(f.Decl.Body, false, func(n ast.Node) bool {
+			if d, ok := n.(*ast.DeferStmt); ok {
+				if pi, isH := restoreHelper[calleeOf(info, d.Call)]; isH && pi < len(d.Call.Args) {
+					if _, fld := fieldOf(info, d.Call.Args[pi]); fld == flag {
+						helperRestoreAt = d.Pos()
+					}
+				}
+			}
+			return true
+		})
 		var walk func(n ast.Node, deferred bool)
 		walk = func(n ast.Node, deferred bool) {
 			ast.Inspect(n, func(m ast.Node) bool {
@@ -801,6 +836,15 @@ func inLoopFlagRule(r *Run, rule string) {
 				hasRestore = true
 			}
 		}
+		// a deferred helper call whose argument is a saved local
+		inspectBody(f.Decl.Body, false, func(n ast.Node) bool {
+			if d, ok := n.(*ast.DeferStmt); ok {
+				if pi, isH := restoreHelper[calleeOf(info, d.Call)]; isH && pi < len(d.Call.Args) && saved != nil && objOf(info, d.Call.Args[pi]) == saved {
+					hasRestore = true
+				}
+			}
+			return true
+		})
 		for _, s := range stores {
 			con := "store " + short(w.Fset, s.as)
 			if s.deferred {
@@ -815,6 +859,8 @@ func inLoopFlagRule(r *Run, rule string) {
 			switch {
 			case tv.Value == nil:
 				r.Bad(rule, f.Name(), con, w.Pos(s.as.Pos()), "the in-loop flag is set from a non-constant outside a deferred restore")
+			case helperRestoreAt.IsValid() && helperRestoreAt < s.as.Pos() && !(firstBlockParse.IsValid() && s.as.Pos() > firstBlockParse):
+				r.Ok(rule, f.Name(), con, w.Pos(s.as.Pos()), "the current value is handed to a deferred restore before the store; set before anything that can parse a block")
 			case saved == nil || !hasRestore || savePos > s.as.Pos():
 				r.Bad(rule, f.Name(), con, w.Pos(s.as.Pos()),
 					"the in-loop flag is overwritten with a constant without saving it first and restoring it by defer: after this construct an enclosing loop body no longer accepts break/continue")
